@@ -347,7 +347,11 @@ impl Prog {
             if self.nodes[..idx].iter().any(|n| n.raw.iter().any(|r| r.2 != 0 && r.2 >> 63 == 0)) {
                 self.tally.add("cascade:not-normalised-mantissa-passed-on");
             } else {
-                self.violation("Dyadic::add/sub|stored-mantissa-not-normalised", idx, json!({"operation": kind, "reached_through": "Scalar4"}));
+                // representation detail of the current implementation (named in the property's
+                // anchors, not in its statement): observed, not judged - what it breaks (order,
+                // subtraction, conversions) is judged by those clauses themselves
+                let _ = kind;
+                self.tally.add("observation:stored-mantissa-not-normalised(via Scalar4)");
             }
         }
         if irrational_const && !flagged {
@@ -1214,8 +1218,9 @@ impl DProg {
             if self.nodes[..idx].iter().any(|n| n.raw.2 != 0 && n.raw.2 >> 63 == 0) {
                 self.tally.add("cascade:not-normalised-mantissa-passed-on");
             } else {
+                // representation detail (see above): observed, not judged
                 let site = if kind == "add" || kind == "sub" { "add/sub" } else { kind };
-                self.violation(&format!("Dyadic::{site}|stored-mantissa-not-normalised"), idx, json!({"operation": kind, "raw": raw_json(&raw)}));
+                self.tally.add(&format!("observation:stored-mantissa-not-normalised:{site}"));
             }
         }
         if stored != model {
